@@ -375,10 +375,10 @@ class J1939_22:
                     if buf['dest_address'] != ParameterGroupNumber.Address.GLOBAL:
                         self.__send_tp_abort(buf['dest_address'], buf['src_address'], buf['session'], self.ConnectionAbortReason.TIMEOUT, buf['pgn'])
                         del self._rcv_buffer[bufid]
-                        self.__put_rts_cts_session(buf['session'])
                     else:
                         del self._rcv_buffer[bufid]
-                        self.__put_bam_session(buf['session'])
+                    # note: the session number of a received transfer belongs to the remote originator;
+                    # it must not be put back into our own (originator) session pools
                     # TODO: should we notify our CAs about the cancelled transfer?
 
         # check multi-pg send buffers for timeout
@@ -475,7 +475,9 @@ class J1939_22:
                         del self._snd_buffer[bufid]
                         self.__put_bam_session(buf['session'])
                     elif buf['state'] == self.SendBufferState.TRANSMISSION_FINISHED:
+                        # connection aborted by the responder while we were waiting for its CTS
                         del self._snd_buffer[bufid]
+                        self.__put_rts_cts_session(buf['session'])
                     else:
                         logger.critical('unknown SendBufferState %d', buf['state'])
                         del self._snd_buffer[bufid]
@@ -516,7 +518,6 @@ class J1939_22:
                 # according SAE J1939-22 we have to send an ABORT if an active
                 # transmission is already established
                 self.__send_tp_abort(dest_address, src_address, session_num, self.ConnectionAbortReason.BUSY, pgn)
-                self.__put_rts_cts_session(session_num)
                 return
 
             # limit max number segments
@@ -544,7 +545,6 @@ class J1939_22:
             num_segments = data[7] # Maximum number of segments that can be sent
             if buffer_hash not in self._snd_buffer:
                 self.__send_tp_abort(dest_address, src_address, session_num, self.ConnectionAbortReason.RESOURCES, pgn)
-                self.__put_rts_cts_session(session_num)
                 return
             if num_segments == 0:
                 # SAE J1939/22
@@ -575,7 +575,6 @@ class J1939_22:
         elif control_byte == self.TpControlType.EOM_STATUS:
             buffer_hash = self._buffer_hash(session_num, src_address, dest_address)
             if buffer_hash not in self._rcv_buffer:
-                self.__put_rts_cts_session(session_num)
                 return
             pgn = self._rcv_buffer[buffer_hash]['pgn']
             if (self._rcv_buffer[buffer_hash]['message_size'] == message_size) and (self._rcv_buffer[buffer_hash]['num_segments'] == segment_num):
@@ -585,13 +584,11 @@ class J1939_22:
             else:
                 self.__send_tp_abort(dest_address, src_address, session_num, self.ConnectionAbortReason.RESOURCES, pgn)
             del self._rcv_buffer[buffer_hash]
-            self.__put_rts_cts_session(session_num)
 
         elif control_byte == self.TpControlType.EOM_ACK:
             buffer_hash   = self._buffer_hash(session_num, dest_address, src_address)
             if buffer_hash not in self._snd_buffer:
                 self.__send_tp_abort(dest_address, src_address, session_num, self.ConnectionAbortReason.RESOURCES, pgn)
-                self.__put_rts_cts_session(session_num)
                 return
             # TODO: should we inform the application about the successful transmission?
             # Notify subscribers here to be used for the memory access server to know when to send operation complete
@@ -605,10 +602,9 @@ class J1939_22:
             buffer_hash   = self._buffer_hash(session_num, src_address, dest_address)
             if buffer_hash in self._rcv_buffer:
                 # buffer already in use
+                # a new announcement replaces the stale session (as in J1939-21)
                 logger.info('bam receive buffer already in use 0x%x', buffer_hash )
                 del self._rcv_buffer[buffer_hash]
-                self.__put_bam_session(self._rcv_buffer['session'])
-                return
 
             # init new buffer for this connection
             self._rcv_buffer[buffer_hash] = {
